@@ -34,7 +34,8 @@ ASSUMPTIONS = ["'any sequence of other pyrepseq calls' is explored over a fixed 
 
 REFS = {}
 PROCESS_LOG = []
-STATEFUL = {"kdtree", "kdtree_ncpu2", "kdtree_hamming_ncpu3", "kdtree_custom", "clustermap_default", "clustermap_cbar_kws", "clustermap_norm",
+STATEFUL = {"hierarchical_default_table", "nn_default_other_content", "symdel_k2_other_content_ndarray", "kdtree_ndarray_other_content",
+            "kdtree_series_ncpu2_hamming", "kdtree", "kdtree_ncpu2", "kdtree_hamming_ncpu3", "kdtree_custom", "clustermap_default", "clustermap_cbar_kws", "clustermap_norm",
             "clustermap_single_chain_meta", "hierarchical_default", "tcrdist_default_kwargs", "tcrdist_both", "colors_hls_seeded",
             "seqlogos", "subsample_seeded", "pcDelta_maxseqs_seeded", "downsample_seeded"}
 
